@@ -162,6 +162,25 @@ let parse_attr (t : string) : xattr =
                         xa_labels = List.map bytes_of_hex (items ',' ls) }
   | _ -> failwith "attr"
 
+let dom_of_tokens (a : string) (i : string) : xdom =
+  let strip2 s = String.sub s 2 (String.length s - 2) in
+  { x_attributes = (if a = "A-" then None else Some (List.map parse_attr (items ';' (strip2 a))));
+    x_instances = (if i = "I-" then None
+                   else Some (List.map (fun t -> List.map bytes_of_hex (items ',' t)) (items ';' (strip2 i)))) }
+
+(* c/<texthex>/<delim>/<hdr>/<trim>/<out>  |  x/<A>/<I>  |  x/ERR/ERR *)
+let parse_step (st : string) : st_step =
+  match String.split_on_char '/' st with
+  | ["c"; text; delim; hdr; trim; out] ->
+    let d = { delimiter = z_of_int (int_of_string delim); trim_ws = (trim = "1");
+              has_header = (match hdr with "-1" -> GUESS_HEADER | "0" -> NO_HEADER | _ -> HAS_HEADER);
+              quoting = REMOVE_QUOTES } in
+    StCsv (bytes_of_hex text, { p_dialect = d; p_filter = no_filter;
+                                p_output_index = (if out = "-1" then None else Some (nat_of_out out)) })
+  | ["x"; "ERR"; "ERR"] -> StXrff (None, no_filter)
+  | ["x"; a; i] -> StXrff (Some (dom_of_tokens a i), no_filter)
+  | _ -> failwith "step"
+
 let result_line (r : 'a res) (ok : 'a -> string) : string =
   match r with
   | Ok x -> ok x
@@ -207,34 +226,56 @@ let () =
           let r = read_xrff o_is_number o_stod o_stoi (variant_of v) dom (parse_filter flt) in
           print_endline (result_line r (fun (df, n) -> "OK ret=" ^ string_of_int (int_of_nat n) ^ " " ^ show_df df))
         | "hist" :: v :: _k :: steps ->
-          let dom_of a i =
-            let strip2 s = String.sub s 2 (String.length s - 2) in
-            { x_attributes = (if a = "A-" then None else Some (List.map parse_attr (items ';' (strip2 a))));
-              x_instances = (if i = "I-" then None
-                             else Some (List.map (fun t -> List.map bytes_of_hex (items ',' t)) (items ';' (strip2 i)))) } in
+          (* reads on one frame, continuing after a read that throws (state left behind: Csv/StateDefs.v) *)
           let rec go df steps acc =
             match steps with
             | [] -> "HIST S=" ^ acc ^ " " ^ show_df df
             | st :: rest ->
-              (match String.split_on_char '/' st with
-               | ["c"; text; delim; hdr; trim; out] ->
-                 let d = { delimiter = z_of_int (int_of_string delim); trim_ws = (trim = "1");
-                           has_header = (match hdr with "-1" -> GUESS_HEADER | "0" -> NO_HEADER | _ -> HAS_HEADER);
-                           quoting = REMOVE_QUOTES } in
-                 let p = { p_dialect = d; p_filter = no_filter;
-                           p_output_index = (if out = "-1" then None else Some (nat_of_out out)) } in
-                 (match read_csv_on o_is_number o_stod o_stoi (variant_of v) df (bytes_of_hex text) p with
-                  | Ok df' -> go df' rest (acc ^ "ok" ^ string_of_int (List.length df'.dataset) ^ ",")
-                  | Exn e -> "HIST S=" ^ acc ^ "exn:" ^ show_exn e ^ ", STOP"
-                  | OOB s -> "HIST S=" ^ acc ^ "OOB:" ^ show_site s ^ ", STOP")
-               | ["x"; "ERR"; "ERR"] -> "HIST S=" ^ acc ^ "exn:data_format, STOP"
-               | ["x"; a; i] ->
-                 (match read_xrff_on o_is_number o_stod o_stoi uint_max_nat (variant_of v) df (dom_of a i) no_filter with
-                  | Ok (df', n) -> go df' rest (acc ^ "ok" ^ string_of_int (int_of_nat n) ^ ",")
-                  | Exn e -> "HIST S=" ^ acc ^ "exn:" ^ show_exn e ^ ", STOP"
-                  | OOB s -> "HIST S=" ^ acc ^ "OOB:" ^ show_site s ^ ", STOP")
-               | _ -> failwith "step") in
+              let (df', out) = step_st o_is_number o_stod o_stoi uint_max_nat (variant_of v) df (parse_step st) in
+              (match out with
+               | Ok n -> go df' rest (acc ^ "ok" ^ string_of_int (int_of_nat n) ^ ",")
+               | Exn e -> go df' rest (acc ^ "exn:" ^ show_exn e ^ ",")
+               | OOB o -> "HIST S=" ^ acc ^ "OOB:" ^ show_site o ^ ", STOP") in
           print_endline (go empty_df steps "")
+        | "probh" :: v :: _k :: ops ->
+          let vr = variant_of v in
+          let show_prob acc (pr : problem) =
+            let df = pr.training in
+            let first3 = List.filteri (fun i _ -> i < 3) df.dataset in
+            "PROBH S=" ^ acc ^ " " ^ show_df df
+            ^ " VARS=" ^ cat (List.map (fun vi -> hex_of_bytes vi.v_name ^ ":" ^ string_of_int (int_of_nat vi.v_id) ^ ";") pr.p_vars)
+            ^ " NSYM=" ^ string_of_int (int_of_nat pr.p_other)
+            ^ " VARIABLES=" ^ string_of_int (int_of_nat (prob_variables pr))
+            ^ " CLASSES=" ^ string_of_int (int_of_nat (prob_classes pr))
+            ^ " RUN=" ^ cat (List.map (fun e -> cat (List.map (fun vi ->
+                               (match run_variable vi e with Ok x -> show_value x | _ -> "OOB") ^ ",") pr.p_vars) ^ ";") first3) in
+          let rec go (pr : problem option) ops acc =
+            match ops with
+            | [] -> (match pr with None -> "PROBH S=" ^ acc ^ " NONE" | Some p -> show_prob acc p)
+            | op :: rest ->
+              (match pr, String.split_on_char '/' op with
+               | _, ["n"; text; strong] ->
+                 (match prob_construct o_is_number o_stod o_stoi vr (bytes_of_hex text) (strong = "1") with
+                  | Ok p -> go (Some p) rest (acc ^ "ok" ^ string_of_int (List.length p.training.dataset) ^ ",")
+                  | Exn e -> go None rest (acc ^ "exn:" ^ show_exn e ^ ",")
+                  | OOB o -> "PROBH S=" ^ acc ^ "OOB:" ^ show_site o ^ ", STOP")
+               | None, _ -> go None rest (acc ^ "skip,")
+               | Some p, ["s"; strong] ->
+                 let (p', out) = prob_setup_symbols vr p (strong = "1") in
+                 (match out with
+                  | Ok n -> go (Some p') rest (acc ^ "ok" ^ string_of_int (int_of_nat n) ^ ",")
+                  | Exn e -> go (Some p') rest (acc ^ "exn:" ^ show_exn e ^ ",")
+                  | OOB o -> "PROBH S=" ^ acc ^ "OOB:" ^ show_site o ^ ", STOP")
+               | Some p, _ ->
+                 let (p', out) =
+                   (match parse_step (if op.[0] = 'r' then "c" ^ String.sub op 1 (String.length op - 1) else op) with
+                    | StCsv (text, prm) -> prob_read_csv o_is_number o_stod o_stoi vr p text prm
+                    | StXrff (dom, _) -> prob_read_xrff o_is_number o_stod o_stoi uint_max_nat vr p dom) in
+                 (match out with
+                  | Ok n -> go (Some p') rest (acc ^ "ok" ^ string_of_int (int_of_nat n) ^ ",")
+                  | Exn e -> go (Some p') rest (acc ^ "exn:" ^ show_exn e ^ ",")
+                  | OOB o -> "PROBH S=" ^ acc ^ "OOB:" ^ show_site o ^ ", STOP")) in
+          print_endline (go None ops "")
         | ["line"; text; delim; trim; keep] ->
           let d = { delimiter = z_of_int (int_of_string delim); trim_ws = (trim = "1"); has_header = NO_HEADER;
                     quoting = (if keep = "1" then KEEP_QUOTES else REMOVE_QUOTES) } in
